@@ -41,6 +41,52 @@ def tokens(e):
     raise ValueError(t)
 
 
+# ---- print variants: every exported spelling / entry point of a modelled construct (pinned by gen/c06_exports.py) ----
+# prefixes: c: = the (chibi) core binding, r5: = (scheme r5rs), t18: = (srfi 18), s39: = (srfi 39), s23: = (srfi 23); bare = (scheme base)
+IMPORTS_FULL = ("(import (prefix (only (chibi) call-with-current-continuation dynamic-wind with-exception-handler raise raise-continuable "
+                "error values call-with-values) c:) (rename (only (chibi) %dk) (%dk c06-dk)) (prefix (srfi 39) s39:) "
+                "(prefix (only (scheme r5rs) call-with-current-continuation dynamic-wind values call-with-values) r5:) "
+                "(prefix (only (srfi 18) with-exception-handler raise) t18:) (prefix (only (srfi 23) error) s23:))")
+IMPORTS_LIGHT = ("(import (prefix (only (chibi) call-with-current-continuation dynamic-wind with-exception-handler raise raise-continuable "
+                 "error values call-with-values) c:) (rename (only (chibi) %dk) (%dk c06-dk)) (prefix (srfi 39) s39:))")
+SPELLINGS = dict(
+    callcc=["call-with-current-continuation", "call/cc", "c:call-with-current-continuation", "r5:call-with-current-continuation"],
+    wind=["dynamic-wind", "c:dynamic-wind", "r5:dynamic-wind"],
+    handler=["with-exception-handler", "c:with-exception-handler", "t18:with-exception-handler"],
+    raise_=["raise", "c:raise", "t18:raise"],
+    raisec=["raise-continuable", "c:raise-continuable"],
+    parameterize=["parameterize", "s39:parameterize"],
+    mkparam=["(make-parameter 0)", "(s39:make-parameter 0)", "(make-parameter 0 (lambda (x) x))"],
+    values=["values", "c:values", "r5:values"],
+    cwv=["call-with-values", "c:call-with-values", "r5:call-with-values"],
+    # errors signalled by a primitive / by `error`: all non-continuable, condition canonicalised to 999 by (payload c)
+    primerr=["(car 999)", "(error \"boom\" 999 1)", "(c:error \"boom\" 999)", "(s23:error \"boom\" 999)", "(vector-ref (vector 1) 999)",
+             "(raise (list 999))", "(999 1)"],
+    payload=["(if (number? c) c 999)",
+             "(cond ((number? c) c) ((error-object? c) (if (and (string? (error-object-message c)) (list? (error-object-irritants c))) 999 997)) (else 999))"],
+)
+LIGHT_OK = lambda sp: not any(x in sp for x in ("r5:", "t18:", "s23:"))
+VAR = dict(salt=0, light=False, fixed=None)
+
+
+def pick(kind, site=0):
+    """spelling of `kind` at `site` for the script being printed: a stable function of (script, kind, site)"""
+    import zlib
+    opts = SPELLINGS[kind]
+    if VAR["light"]:
+        opts = [o for o in opts if LIGHT_OK(o)]
+    if VAR["fixed"] is not None:
+        return opts[VAR["fixed"] % len(opts)]
+    return opts[zlib.crc32(("%d:%s:%s" % (VAR["salt"], kind, site)).encode()) % len(opts)]
+
+
+def mv_mode():
+    """multiple values through continuations: in an mv script EVERY call/cc receiver is (call-with-values (lambda () (call/cc ..))
+    (lambda vs (apply + vs))) and throws pass 1-3 values whose sum is the model's value"""
+    import zlib
+    return VAR["fixed"] is None and zlib.crc32(("%d:mv" % VAR["salt"]).encode()) % 3 == 0
+
+
 def scheme(e):
     t = e[0]
     if t == "const":
@@ -56,34 +102,51 @@ def scheme(e):
     if t == "add":
         return "(let* ((x %s) (y %s)) (+ x y))" % (scheme(e[1]), scheme(e[2]))
     if t == "wind":
-        return "(dynamic-wind (lambda () (push! 1 %d)) (lambda () %s) (lambda () (push! 2 %d)))" % (e[1], scheme(e[2]), e[1])
+        return "(%s (lambda () (pusht! 1 %d)) (lambda () %s) (lambda () (pusht! 2 %d)))" % (pick("wind", e[1]), e[1], scheme(e[2]), e[1])
     if t == "windp":
         i, p = e[1], e[2]
-        return ("(dynamic-wind (lambda () (push! 1 %d) (push! %d (p%d))) (lambda () %s) (lambda () (push! 2 %d) (push! %d (p%d))))"
-                % (i, 10 + p, p, scheme(e[3]), i, 10 + p, p))
+        return ("(%s (lambda () (pusht! 1 %d) (pusht! %d (p%d))) (lambda () %s) (lambda () (pusht! 2 %d) (pusht! %d (p%d))))"
+                % (pick("wind", i), i, 10 + p, p, scheme(e[3]), i, 10 + p, p))
     if t == "callcc":
-        return "(call-with-current-continuation (lambda (c) (set! k%d c) %s))" % (e[1], scheme(e[2]))
+        body = scheme(e[2])
+        site = "%d:%d" % (e[1], len(body))
+        cc = "(%s (lambda (c) (set! k%d c) %s))" % (pick("callcc", site), e[1], body)
+        if mv_mode():
+            return "(%s (lambda () %s) (lambda vs (apply + vs)))" % (pick("cwv", site), cc)
+        return cc
     if t == "throw":
         k, lim = e[1], e[2]
-        return "(let ((v %s)) (if (and k%d (< c%d %d)) (begin (set! c%d (+ c%d 1)) (k%d v)) v))" % (scheme(e[3]), k, k, lim, k, k, k)
+        arg = scheme(e[3])
+        site = "%d:%d:%d" % (k, lim, len(arg))
+        if mv_mode():
+            forms = ["(k%d v)", "(k%d v 0)", "(k%d 0 v 0)", "(apply k%d (list v 0))", "(apply k%d 0 (list v))",
+                     "(CWV (lambda () (VALUES 0 v)) k%d)", "(CWV (lambda () (VALUES v)) k%d)", "(CWV (lambda () v) k%d)"]
+        else:
+            forms = ["(k%d v)", "(k%d v)", "(apply k%d (list v))", "(CWV (lambda () v) k%d)", "(CWV (lambda () (VALUES v)) k%d)"]
+        import zlib
+        go = forms[zlib.crc32(("%d:throw:%s" % (VAR["salt"], site)).encode()) % len(forms)] if VAR["fixed"] is None else forms[0]
+        go = (go % k).replace("CWV", pick("cwv", site)).replace("VALUES", pick("values", site))
+        return "(let ((v %s)) (if (and k%d (< c%d %d)) (begin (set! c%d (+ c%d 1)) %s) v))" % (arg, k, k, lim, k, k, go)
     if t == "param":
         inner = e[3]
+        pz = pick("parameterize", "%d:%d" % (e[1], size(e)))
         if (inner[0] == "param" and inner[1] != e[1] and e[2][0] == "const" and inner[2][0] == "const"
                 and (e[2][1] + inner[2][1]) % 2 == 0):
             # two nested constant bindings of different parameters: printed (for half of them) as ONE parameterize with
             # two bindings — one extent with two conses instead of two extents; extents are silent, so same trace
-            return "(parameterize ((p%d %s) (p%d %s)) %s)" % (e[1], scheme(e[2]), inner[1], scheme(inner[2]), scheme(inner[3]))
-        return "(parameterize ((p%d %s)) %s)" % (e[1], scheme(e[2]), scheme(e[3]))
+            return "(%s ((p%d %s) (p%d %s)) %s)" % (pz, e[1], scheme(e[2]), inner[1], scheme(inner[2]), scheme(inner[3]))
+        return "(%s ((p%d %s)) %s)" % (pz, e[1], scheme(e[2]), scheme(e[3]))
     if t == "handler":
-        return "(with-exception-handler (lambda (c) (push! 5 %d) (push! 6 (payload c)) %s) (lambda () %s))" % (e[1], scheme(e[2]), scheme(e[3]))
+        return "(%s (lambda (c) (push! 5 %d) (push! 6 (payload c)) %s) (lambda () %s))" % (pick("handler", e[1]), e[1], scheme(e[2]), scheme(e[3]))
     if t == "raise":
-        if e[1] == ("const", 999) and PRIM_ERR[0]:
-            # an error signalled by the VM itself (vm.c:1171 call_error_handler), not by the raise opcode; its
-            # condition object is canonicalised to 999 by (payload c), which is what the machine raises here
-            return "(car 999)"
-        return "(raise %s)" % scheme(e[1])
+        if e[1] == ("const", 999):
+            # an error signalled by the VM itself (vm.c:1171 call_error_handler) or by `error`, not by the raise opcode on a
+            # number; its condition object is canonicalised to 999 by (payload c), which is what the machine raises here
+            VAR["nerr"] = VAR.get("nerr", 0) + 1
+            return pick("primerr", VAR["nerr"])
+        return "(%s %s)" % (pick("raise_", size(e)), scheme(e[1]))
     if t == "raisec":
-        return "(raise-continuable %s)" % scheme(e[1])
+        return "(%s %s)" % (pick("raisec", size(e)), scheme(e[1]))
     if t == "guard":
         # same meaning, different arms of guard-aux (lib/scheme/misc-macros.scm:44-63), chosen by the tag
         style = e[2] % 4
@@ -100,27 +163,55 @@ def scheme(e):
     raise ValueError(t)
 
 
-PRIM_ERR = [True]          # print (raise 999) as the primitive error (car 999); switched off only for triage in gc_stream
-
-
 def wrap(body):
     """the whole script: outermost escape continuation k0 + a top handler that always escapes to it"""
     return ("show", ("callcc", 0, ("handler", TOP_TAG, ("throw", 0, 99, ("const", 98)), body)))
 
 
-CASE = ("(let ((trace (list)) (k0 #f) (k1 #f) (k2 #f) (k3 #f) (c0 0) (c1 0) (c2 0) (c3 0) "
-        "(p0 (make-parameter 0)) (p1 (make-parameter 0))) "
-        "(define (push! k v) (set! trace (cons v (cons k trace)))) "
-        "(define (payload c) (if (number? c) c 999)) "
+# every event is recorded as four numbers  kind value depth point : depth / point describe the wind point register (%dk)
+# read right after the event (depth relative to the script's start, point = serial number in order of first sight);
+# events pushed by before/after thunks record -1 -1 (the register is in transit while they run)
+CASE = ("(let* ((trace (list)) (pts (list)) (k0 #f) (k1 #f) (k2 #f) (k3 #f) (c0 0) (c1 0) (c2 0) (c3 0) "
+        "(p0 %s) (p1 %s) (d0 (vector-ref (c06-dk) 0))) "
+        "(define (push! k v) (let* ((pt (c06-dk)) (a (assq pt pts)) (i (if a (cdr a) (let ((i (length pts))) (set! pts (cons (cons pt i) pts)) i)))) "
+        "(set! trace (cons i (cons (- (vector-ref pt 0) d0) (cons v (cons k trace))))))) "
+        "(define (pusht! k v) (set! trace (cons -1 (cons -1 (cons v (cons k trace)))))) "
+        "(define (payload c) %s) "
         "%s (reverse trace))")
 
 
-def program(e):
-    return CASE % scheme(e)
+def has_merge(e):
+    """does scheme() print two nested parameterizes of e as ONE form (one extent instead of two: the depth of the wind
+    point register then differs from the machine's by construction, so such scripts record no register reads)"""
+    if e[0] == "param":
+        inner = e[3]
+        if (inner[0] == "param" and inner[1] != e[1] and e[2][0] == "const" and inner[2][0] == "const"
+                and (e[2][1] + inner[2][1]) % 2 == 0):
+            return True
+    return any(has_merge(x) for x in e[1:] if isinstance(x, tuple))
 
 
-def standalone(e):
-    return "(import (scheme base) (scheme write)) (write %s) (newline)" % program(e)
+def model_events(s, line):
+    stc, evs = parse_model(line)
+    if has_merge(s):
+        evs = [(k, v, -1, -1) for k, v, _d, _p in evs]
+    return stc, evs
+
+
+def program(e, light=False, fixed=None):
+    import zlib
+    VAR["salt"] = zlib.crc32(" ".join(tokens(e)).encode())
+    VAR["light"] = light
+    VAR["fixed"] = fixed
+    VAR["nerr"] = 0
+    case = CASE
+    if has_merge(e):
+        case = case.replace("(define (push! k v) ", "(define (push! k v) (pusht! k v)) (define (push-dk! k v) ")
+    return case % (pick("mkparam", 0), pick("mkparam", 1), pick("payload"), scheme(e))
+
+
+def standalone(e, fixed=None):
+    return "(import (scheme base) (scheme write)) %s (write %s) (newline)" % (IMPORTS_FULL, program(e, fixed=fixed))
 
 
 def size(e):
@@ -317,9 +408,131 @@ def templates(rng):
         # error signalled by a primitive inside winds, caught by guard outside; and by a handler that escapes
         out.append(("guard", None, fr.tag(), leaf(), w(("seq", leaf(), w(("raise", ("const", 999)))))))
         out.append(("callcc", 1, ("handler", fr.tag(), ("throw", 1, 1, ("const", 7)), w(("seq", ("raise", ("const", 999)), leaf())))))
+        # two sibling extents of equal depth ping-pong 6 times (generator style: each resumes the other where it left)
+        out.append(("seq", w(("seq", ("callcc", 1, leaf()), ("throw", 2, 3, leaf()))),
+                    w(("seq", ("callcc", 2, leaf()), ("throw", 1, 3, leaf())))))
+        # sibling -> sibling, then from INSIDE the re-entered extent: to the root (k3), and a fresh capture there used later
+        out.append(("seq", ("callcc", 3, leaf()),
+                    ("seq", w(w(("seq", ("callcc", 1, leaf()), ("seq", ("callcc", 2, leaf()), ("throw", 3, 1, leaf()))))),
+                     ("seq", w(w(("throw", 1, 1, leaf()))), ("throw", 2, 1, leaf())))))
+        # three siblings: 2 -> 1, from inside 1 -> 3's future? (k3 unbound: no jump), 3 -> 1 again, 1 -> 2
+        out.append(("seq", w(("seq", ("callcc", 1, leaf()), ("throw", 2, 2, leaf()))),
+                    ("seq", w(("seq", ("callcc", 2, leaf()), ("throw", 1, 1, leaf()))),
+                     w(("seq", ("callcc", 3, leaf()), ("throw", 1, 2, leaf()))))))
         # stack contents: left operand captured with the continuation, re-entered twice
         out.append(("seq", ("show", ("add", fr.mark(), ("add", ("const", 3), ("callcc", 1, ("const", 1))))), ("throw", 1, 2, ("const", 2))))
     return out
+
+
+def sibling_family(rng, thorough):
+    """sequences of >= 2 jumps between SIBLING extents of equal depth (and cousins / nephews), the second one taken from
+    INSIDE the extent the first one re-entered.  Script = [callcc 3 at the root] ; S_1 ; ... ; S_n ; [tail throw at the root],
+    S_i = W_i(callcc i ; op ; op), W_i = one wind or two nested winds, op = nothing | throw j lim (j = a sibling's k, or k3) |
+    callcc 3 (a second CAPTURE inside the re-entered extent, thrown to later).  With limits up to 3 two siblings ping-pong
+    up to 6 times.  The wind point register must follow every jump: a throw/capture from inside a re-entered sibling starts
+    from THAT extent (travel-to-point! from a stale register runs the other sibling's out thunk / skips the in thunk)."""
+    M = ("mark", 0)
+    ops = [None, ("cap",)] + [("throw", j, lim) for j in (1, 2, 3) for lim in (1, 2, 3)]
+
+    def body(i, oplist):
+        b = ("callcc", i, M)
+        for op in oplist:
+            if op is None:
+                continue
+            b = ("seq", b, ("callcc", 3, M) if op[0] == "cap" else ("throw", op[1], op[2], M))
+        return b
+
+    def script(shapes, bodies, tail, rootk):
+        sibs = []
+        for sh, b in zip(shapes, bodies):
+            x = ("wind", 0, b)
+            if sh == "ww":
+                x = ("wind", 0, x)
+            elif sh == "pw":
+                x = ("param", 0, ("const", 7), ("wind", 0, ("seq", ("pref", 0), b)))      # a parameterize extent + a wind: depth 2
+            sibs.append(x)
+        e = sibs[-1] if tail is None else ("seq", sibs[-1], ("throw", tail[0], tail[1], M))
+        for x in reversed(sibs[:-1]):
+            e = ("seq", x, e)
+        if rootk:
+            e = ("seq", ("callcc", 3, M), e)
+        return relabel(e)
+    core, rest = [], []
+    # structured core: two siblings of EQUAL depth, one op each, with / without a root continuation and a root-level tail throw
+    for sh in (("w", "w"), ("ww", "ww")):
+        for a in ops:
+            for b in ops:
+                for tail, rootk in ((None, False), ((3, 1), True), ((1, 1), False)):
+                    core.append(script(sh, [body(1, [a]), body(2, [b])], tail, rootk))
+    # the wider family (sampled in the quick tier): two ops per sibling, mixed depths (nephews), three siblings, parameterize extents
+    tails = [None, (3, 1), (1, 1), (2, 2), (1, 3)]
+    shapes2 = [("w", "w"), ("ww", "ww"), ("w", "ww"), ("ww", "w"), ("pw", "ww"), ("pw", "pw")]
+    n_rest = 500 if not thorough else 12000
+    seen = set()
+    while len(rest) < n_rest:
+        if rng.random() < 0.6:
+            sh = rng.choice(shapes2)
+            bs = [body(i + 1, [rng.choice(ops), rng.choice(ops)]) for i in range(2)]
+        else:
+            sh = rng.choice([("w", "w", "w"), ("ww", "ww", "ww"), ("w", "ww", "w"), ("ww", "pw", "ww")])
+            bs = [body(min(i + 1, 3) if i < 2 else 3, [rng.choice(ops), rng.choice(ops[:1] + ops[2:])]) for i in range(3)]
+        e = script(sh, bs, rng.choice(tails), rng.random() < 0.4)
+        key = tuple(tokens(e))
+        if key not in seen:
+            seen.add(key)
+            rest.append(e)
+    return core + rest
+
+
+# ---- K-inner on the aliases: every exported procedure spelling is THE SAME OBJECT as the binding the machine mirrors ----
+ALIAS_PROCS = ["call-with-current-continuation", "call/cc", "dynamic-wind", "with-exception-handler", "raise", "raise-continuable", "error",
+               "values", "call-with-values", "make-parameter", "error-object?", "error-object-message", "error-object-irritants"]
+ALIAS_REF = {"call/cc": "call-with-current-continuation"}          # what an alias must be eq? to, by its (scheme base) name
+
+
+def alias_identity(ctx, d):
+    """eq? of every exported procedure spelling (library list from the CURRENT tree's .sld files) with the (scheme base)
+    binding, and of the (scheme base) bindings with the (chibi) core binding the machine mirrors"""
+    from gen import c06_exports as E
+    import subprocess
+    ex = E.scan_exports(B.REPO)
+    libs = {}
+    for nm in ALIAS_PROCS:
+        for f in ex.get(nm, []):
+            libs.setdefault(f, []).append(nm)
+    imports, checks = [], []
+    core = [n for n in ALIAS_PROCS if n not in ("call/cc", "make-parameter", "error-object?", "error-object-message", "error-object-irritants")]
+    imports.append("(prefix (only (chibi) %s) core:)" % " ".join(core))
+    for n in core:
+        checks.append(("(chibi)", n, "(eq? core:%s %s)" % (n, n)))
+    checks.append(("(scheme base)", "call/cc", "(eq? call/cc core:call-with-current-continuation)"))
+    for j, (f, names) in enumerate(sorted(libs.items())):
+        lib = "(" + f[len("lib/"):-len(".sld")].replace("/", " ") + ")"
+        if lib == "(scheme base)":
+            continue
+        imports.append("(prefix (only %s %s) l%d:)" % (lib, " ".join(names), j))
+        for n in names:
+            checks.append((lib, n, "(eq? l%d:%s %s)" % (j, n, ALIAS_REF.get(n, n))))
+    prog = "(import (scheme base) (scheme write) %s)\n(write (list %s))\n" % (" ".join(imports), " ".join(c[2] for c in checks))
+    try:
+        r = B.run_chibi(d, ["/dev/stdin"], input=prog, timeout=60)
+        out = r.stdout.strip()
+    except subprocess.TimeoutExpired:
+        out = "TIMEOUT"
+    vals = out[1:-1].split() if out.startswith("(") and out.endswith(")") else []
+    if len(vals) != len(checks):
+        ctx.broken("alias-identity", "the alias identity program did not run: %s %s" % (out[:200], (r.stderr if out != "TIMEOUT" else "")[-300:]))
+        return
+    bad = [(lib, n) for (lib, n, _c), v in zip(checks, vals) if v != "#t"]
+    for lib, n, _c in checks:
+        ctx.count(1, key=("alias", lib, n), nontrivial=True)
+    ctx.sample(dict(kind="alias identity", checked=len(checks), libraries=sorted({c[0] for c in checks}), not_identical=bad))
+    for lib, n in bad:
+        # not a violation by itself (a wrapper can be harmless): the print variants run the trace correspondence through
+        # this spelling and decide; but the spelling is no longer covered by the theorems about the mirrored definition
+        ctx.broken("alias:%s:%s" % (lib, n), "%s exported by %s is no longer the same procedure object as the definition the machine mirrors (%s); "
+                   "replay: printf '%%s' %s | LD_LIBRARY_PATH=%s CHIBI_MODULE_PATH=%s/lib CHIBI_IGNORE_SYSTEM_PATH=1 %s/chibi-scheme /dev/stdin" % (
+                       n, lib, ALIAS_REF.get(n, n), shlex.quote(prog), d, d, d))
 
 
 # ------------------------------------------------------------------------------------------------ comparison
@@ -334,6 +547,10 @@ def classify(model, impl):
     m, i = model, parse_impl(impl)
     if i is None:
         return "output"
+    i = canon_points(i)
+    if kv(m) == kv(i):
+        return "dk-register"
+    m, i = kv(m), kv(i)
     n = 0
     while n < len(m) and n < len(i) and m[n] == i[n]:
         n += 1
@@ -349,7 +566,7 @@ def classify(model, impl):
     return "control-flow"
 
 
-def parse_impl(s):
+def parse_impl(s, group=4):
     s = s.strip()
     if not (s.startswith("(") and s.endswith(")")):
         return None
@@ -357,14 +574,29 @@ def parse_impl(s):
         xs = [int(x) for x in s[1:-1].split()]
     except ValueError:
         return None
-    if len(xs) % 2:
+    if len(xs) % group:
         return None
-    return list(zip(xs[0::2], xs[1::2]))
+    return [tuple(xs[j:j + group]) for j in range(0, len(xs), group)]
+
+
+def canon_points(evs):
+    """rename the wind points of a (kind value depth point) trace in order of first sight (-1 = not recorded)"""
+    ren, out = {}, []
+    for k, v, dp, pt in evs:
+        if pt >= 0:
+            pt = ren.setdefault(pt, len(ren))
+        out.append((k, v, dp, pt))
+    return out
+
+
+def kv(evs):
+    return [(e[0], e[1]) for e in evs]
 
 
 def parse_model(s):
+    """answer of `rundk`: status, [(kind, value, depth of the machine's dk, dk)] with points renamed in order of first sight"""
     f = s.split()
-    return int(f[0]), [tuple(int(x) for x in t.split(":")) for t in f[1:]]
+    return int(f[0]), canon_points([tuple(int(x) for x in t.split(":")) for t in f[1:]])
 
 
 # ------------------------------------------------------------------------------------------------ K-inner: travel-to-point!
@@ -432,7 +664,7 @@ def travel_cases(ctx, exe, d):
     for j, (e, i, m) in enumerate(zip(exprs, io, meta)):
         spec_s, gen_s = mo[2 * j], mo[2 * j + 1]
         want = [] if spec_s == "-" else [((1 if t[0] == "i" else 2), int(t[1:])) for t in spec_s.split()]
-        got = parse_impl(i) if i is not None else None
+        got = parse_impl(i, 2) if i is not None else None
         hs, a, b, depth = m
         ctx.count(1, key=("travel", hs, a, b), nontrivial=(a != b and depth[a] > 0 and depth[b] > 0))
         ctx.cov["traces_validated_against_impl"] += 1
@@ -482,10 +714,16 @@ def stack_cases(ctx, exe, d):
             reqs_m.append("ssave %d %s %d" % (n_alloc, ws(st), to))
             meta.append(("save", st, to))
         else:
-            m = rng.choice([0, 1, 4, 5, n, n + 4, rng.randrange(0, 60), n_alloc - 66, n_alloc - 65, n_alloc - 64, n_alloc - 63])
+            m = rng.choice([0, 1, 4, 5, n, n + 4, rng.randrange(0, 60), n_alloc - 66, n_alloc - 65, n_alloc - 64, n_alloc - 63,
+                            2 * n_alloc - 65, 2 * n_alloc - 64, 2 * n_alloc - 63, 3 * n_alloc + 7])
             sv = [rng.randrange(100, 200) for _ in range(max(0, m))]
             reqs_c.append("restore %s %s" % (ws(st), ws(sv)))
-            reqs_m.append("srestore %d %s %s" % (n_alloc, ws(st), ws(sv)))
+            if m + 64 >= n_alloc:
+                # growth branch (sexp_grow_stack): restore_stack_g of StackModel.v; the cap SEXP_MAX_STACK_SIZE (1000 x the
+                # initial size) is never reached by these requests, the model gets a smaller one (unary numbers)
+                reqs_m.append("srestoreg %d %s %s %d" % (n_alloc, ws(st), ws(sv), 20 * n_alloc))
+            else:
+                reqs_m.append("srestore %d %s %s" % (n_alloc, ws(st), ws(sv)))
             meta.append(("restore", st, sv))
     r = subprocess.run([emb], input="\n".join(reqs_c) + "\n", capture_output=True, text=True, env=env, timeout=300)
     co = r.stdout.split("\n")
@@ -505,17 +743,18 @@ def stack_cases(ctx, exe, d):
         else:
             k = max(len(st), len(x)) + 2
             cf = c.split()
-            if len(x) + 64 >= n_alloc:                       # growth path: outside the model; the C side must have grown
-                ok_m = (m == "GROW")
-                ok_c = len(cf) == 3 and int(cf[2]) > n_alloc and cf[0] == str(len(x))
+            if len(x) + 64 >= n_alloc:                       # growth path: new stack of max(2*size, len+64) words, saved words restored
+                newlen = max(2 * n_alloc, len(x) + 64)
+                want = "%d %s %d" % (len(x), ws(x), newlen)
+                ok_m = (m == want)
+                ok_c = len(cf) == 3 and cf[0] == str(len(x)) and cf[1].split(",")[:len(x)] == [str(v) for v in x] and int(cf[2]) == newlen
             else:
                 full = x + (st + [0] * (k + len(x)))[len(x):]
                 want = "%d %s" % (len(x), ws(full[:k]))
                 ok_m = (m == want)
                 ok_c = len(cf) == 3 and "%s %s" % (cf[0], cf[1]) == want and int(cf[2]) == n_alloc
         if not ok_c:
-            ctx.violation("stack-copy:" + kind, input=q, expected=(want if kind == "save" or len(x) + 64 < n_alloc else "grown stack, top=%d" % len(x)),
-                          observed=c, model=m, replay="echo '%s' | LD_LIBRARY_PATH=%s %s" % (q, d, emb))
+            ctx.violation("stack-copy:" + kind, input=q, expected=want[:400], observed=c[:400], model=m[:400], replay="echo '%s' | LD_LIBRARY_PATH=%s %s" % (q, d, emb))
         elif not ok_m:
             _broken_once(ctx, "correspondence:stack-copy", "StackModel differs from vm.c (C agrees with the oracle): %s model=%s impl=%s" % (q, m, c))
     ctx.sample(dict(kind="stack-copy", request=reqs_c[0][:300], model=mo[0][:300], impl=co[0][:300], allocated=n_alloc))
@@ -581,6 +820,89 @@ def callback_escapes(ctx, d, exe=None):
                 "a stale C frame" if model_stale else "a clean run", "misbehaves" if code_stale else "runs cleanly"))
 
 
+# ------------------------------------------------------------------------------------------------ K-inner: multiple values
+def values_cases(ctx, exe, d):
+    """the real values / call-with-values / continuation procedures (every exported spelling) on 0..4 values, directly,
+    through an escaping continuation and through a RE-ENTERED one, vs the extracted coq/C06/ValuesModel.v"""
+    reqs, exprs, meta = [], [], []
+    lists = [[], [5], [1, 2], [0, 7, 0], [4, 3, 2, 1]]
+    for ls in lists:
+        args = " ".join(str(x) for x in ls)
+        key = ",".join(str(x) for x in ls) or "_"
+        for vs in SPELLINGS["values"]:
+            for cw in SPELLINGS["cwv"]:
+                reqs.append("values v %s" % key)
+                exprs.append("(%s (lambda () (%s %s)) list)" % (cw, vs, args))
+                meta.append(("values", vs, cw, ls))
+        for cc in SPELLINGS["callcc"]:
+            cw = SPELLINGS["cwv"][len(ls) % 3]
+            reqs.append("values k %s" % key)
+            exprs.append("(%s (lambda () (%s (lambda (k) (dynamic-wind (lambda () #f) (lambda () (k %s)) (lambda () #f))))) list)" % (cw, cc, args))
+            meta.append(("escape", cc, cw, ls))
+            reqs.append("values k %s" % key)
+            exprs.append("(let ((k #f) (n 0) (acc (list))) (%s (lambda () (%s (lambda (c) (set! k c) (values 9 9)))) (lambda xs (set! acc (cons xs acc)))) "
+                         "(if (= n 0) (begin (set! n 1) (k %s))) (car acc))" % (cw, cc, args))
+            meta.append(("re-entry", cc, cw, ls))
+    mo = ctx.run_model(exe, reqs)
+    io, _hard = run_chibi(d, exprs, prelude_extra=IMPORTS_FULL, timeout=60)
+    io += [None] * (len(exprs) - len(io))
+    for e, i, m, (how, a, b, ls) in zip(exprs, io, mo, meta):
+        ctx.count(1, key=("values", how, a, b, tuple(ls)), nontrivial=len(ls) != 1)
+        ctx.cov["traces_validated_against_impl"] += 1
+        want = "(" + " ".join(str(x) for x in ls) + ")"
+        got = None if i is None else i.replace("f", "")             # verif-show prints fixnums as f<hex>; values here are < 10
+        if got != want:
+            ctx.violation("values:" + how, input=e, expected=want, observed=i, model=m, spellings=[a, b],
+                          replay="printf '%%s' %s | LD_LIBRARY_PATH=%s CHIBI_MODULE_PATH=%s/lib CHIBI_IGNORE_SYSTEM_PATH=1 %s/chibi-scheme /dev/stdin" % (
+                              shlex.quote("(import (scheme base) (scheme write)) %s (write %s)" % (IMPORTS_FULL, e)), d, d, d))
+        elif m != want:
+            _broken_once(ctx, "correspondence:values", "ValuesModel differs from the code (code agrees with R7RS): %s model=%s impl=%s" % (e, m, i))
+    ctx.sample(dict(kind="values", request=reqs[-1], expr=exprs[-1], model=mo[-1], impl=io[-1]))
+
+
+# ------------------------------------------------------------------------------------------------ RESUMECC on a stack that must grow
+# Within one context a saved stack always fits (the stack never shrinks), so the growth branch of sexp_restore_stack
+# is only reachable when a continuation is resumed on ANOTHER context's stack: a green thread (fresh 1024-word stack)
+# invoking a continuation captured deep in the main thread.  call-with-current-continuation refuses that (wind points
+# of different threads have different roots: travel-to-point! fails), the raw primitive %call/cc exported by (chibi)
+# does not.  RESUMECC must then continue on the NEW stack object (coq/C06/StackModel.v resumecc_g; theorem
+# callcc_resume_restores_grown; the opcode that keeps reading the old object is resumecc_stale, refuted).
+RESUMECC_GROW = ("(import (scheme base) (scheme write) (srfi 18) (only (chibi) %%call/cc)) (define k #f) (define n 0) "
+                 "(define (sum i) (if (= i 0) (%%call/cc (lambda (c) (set! k c) 0)) (+ i (sum (- i 1))))) "
+                 "(define (main depth) (let ((v (sum depth))) (write (list (quote sum) v (quote n) n)) (newline) "
+                 "(if (= n 0) (begin (set! n 1) (let ((t (make-thread (lambda () (k 1))))) (thread-start! t) (thread-join! t)))) (quote end))) "
+                 "(write (main %d)) (newline)")
+
+
+def resumecc_growth(ctx):
+    import subprocess
+    try:
+        da = ctx.build("asan")
+    except Exception:
+        return
+    for depth in ([100, 3000, 20000] if not ctx.thorough else [10, 100, 180, 200, 250, 300, 1000, 3000, 20000, 100000]):
+        prog = RESUMECC_GROW % depth
+        env = B.chibi_env(da, dict(ASAN_OPTIONS=GC_ASAN))
+        try:
+            r = subprocess.run([os.path.join(da, "chibi-scheme"), "/dev/stdin"], input=prog, capture_output=True, text=True, errors="replace", timeout=120, env=env)
+            out, rc, err = r.stdout, r.returncode, r.stderr
+        except subprocess.TimeoutExpired:
+            out, rc, err = "", "timeout", ""
+        total = depth * (depth + 1) // 2
+        want = ["(sum %d n 0)" % total, "(sum %d n 1)" % (total + 1)]
+        ctx.count(1, key=("resumecc-growth", depth), nontrivial=depth >= 300)
+        ctx.cov["traces_validated_against_impl"] += 1
+        if "couldn't find" in err and "srfi 18" in err:
+            ctx.assume("RESUMECC growth stream SKIPPED: no (srfi 18) in this build")
+            return
+        if out.split("\n")[:2] != want or rc != 0 or "AddressSanitizer" in err:
+            ctx.violation("resumecc-growth:raw-callcc-cross-thread", input=dict(depth=depth, program=prog),
+                          expected=dict(first_lines=want, rc=0), observed=dict(stdout=out[:300], rc=rc, stderr=[l for l in err.split("\n") if "ERROR" in l or "SUMMARY" in l or " #0 " in l][:4]),
+                          replay="printf '%%s' %s | ASAN_OPTIONS=%s LD_LIBRARY_PATH=%s CHIBI_MODULE_PATH=%s/lib CHIBI_IGNORE_SYSTEM_PATH=1 %s/chibi-scheme /dev/stdin; echo rc=$?" % (
+                              shlex.quote(prog), GC_ASAN, da, da, da))
+            return
+
+
 # ------------------------------------------------------------------------------------------------ forced collections
 # "a continuation resumes with the stack contents it captured" also has to hold when a collection happens at ANY
 # allocation between capture and re-entry: the saved stack copy, its holder vector, the continuation procedure, the
@@ -604,12 +926,12 @@ GC_EMIT = ("(define (emit-num n) (if (< n 0) (begin (write-char #\\-) (emit-num 
            "(emit-num (car l)) (lp (cdr l) #f)))) (write-char #\\)))")
 
 
-def gc_program(run_expr, imports="(scheme base)"):
+def gc_program(run_expr, imports="(scheme base)", more=""):
     """run_expr evaluates to a list of integers; printing allocates (almost) nothing, so a dense schedule started at
     the run's first allocation ends a few allocations after the run"""
-    return ("(import %s)\n%s\n(define verif-m0 (make-bytevector %d 0))\n(define (run) %s)\n"
+    return ("(import %s)%s\n%s\n(define verif-m0 (make-bytevector %d 0))\n(define (run) %s)\n"
             "(let* ((m1 (make-bytevector %d 0)) (r (run)) (m2 (make-bytevector %d 0))) (emit r) (newline))\n" % (
-                imports, GC_EMIT, GC_MARK, run_expr, GC_MARK, GC_MARK))
+                imports, more, GC_EMIT, GC_MARK, run_expr, GC_MARK, GC_MARK))
 
 
 # control programs outside the DSL (multiple values through continuations, generators re-entered many times, deep
@@ -742,15 +1064,15 @@ def gc_cases(ctx, exe, bodies):
     cases = []
     if bodies:
         scripts = [wrap(b) for b in bodies]
-        mo = ctx.run_model(exe, ["run %d %s" % (FUEL, " ".join(tokens(s))) for s in scripts], timeout=600)
+        mo = ctx.run_model(exe, ["rundk %d %s" % (FUEL, " ".join(tokens(s))) for s in scripts], timeout=600)
         for s, m in zip(scripts, mo):
             if m.startswith("ERR"):
                 continue
-            stc, evs = parse_model(m)
+            stc, evs = model_events(s, m)
             if stc != 1:
                 continue
-            want = "(" + " ".join("%d %d" % e for e in evs) + ")"
-            cases.append((" ".join(tokens(s)), gc_program(program(s)), want))
+            want = "(" + " ".join("%d %d %d %d" % e for e in evs) + ")"
+            cases.append((" ".join(tokens(s)), gc_program(program(s, light=True), more=" " + IMPORTS_LIGHT), want))
     for name, expr, want in GC_EXTRAS:
         cases.append(("extra:" + name, gc_program(expr), None if want is None else "(" + " ".join(str(x) for x in want) + ")"))
     return cases
@@ -869,23 +1191,6 @@ def gc_stream(ctx, exe, bodies, label="forced-gc", only_env=None):
                 if rr is not None:
                     v, o, r, e = rr
                 sigcls = v
-                if "raise const 999" in name and len(marks) == 3:
-                    # triage: the same script with (car 999) replaced by (raise 999) (same trace).  If that one survives
-                    # every:1 over its run, the lost root is in the VM's own error signalling (sexp_raise /
-                    # call_error_handler, vm.c:1171-1219), not in the continuation / wind / handler machinery
-                    try:
-                        PRIM_ERR[0] = False
-                        alt = gc_program(program(parse_tokens(name.split())[0]))
-                    finally:
-                        PRIM_ERR[0] = True
-                    apath = os.path.join(tmpd, "alt%d.scm" % j)
-                    with open(apath, "w") as fh:
-                        fh.write(alt)
-                    ao, ar, ae, amarks, _t = _gc_calibrate(da, apath)
-                    if _gc_verdict(ao, ar, ae, want) is None and len(amarks) == 3:
-                        ao, ar, ae = _gc_run(da, apath, dict(CHIBI_VERIF_GC="every:1", CHIBI_VERIF_GC_START=str(amarks[1])))
-                        if _gc_verdict(ao, ar, ae, want) is None:
-                            sigcls = "vm-error-path"
                 tail = [l for l in (e or "").split("\n") if "ERROR" in l or "SUMMARY" in l or "VERIF-AUDIT" in l or " #0 " in l or " #1 " in l][:6]
                 ctx.violation("control-gc:" + sigcls, failure=v, input=name, schedule=env_min, first_failing_schedule=env, program=prog,
                               run_region_allocations=[marks[1], marks[2]] if len(marks) == 3 else None,
@@ -937,7 +1242,7 @@ def run_scripts(ctx, exe, d, bodies, label):
     """model first (only scripts the machine finishes are sent to chibi), then chibi; compare traces"""
     t_start = time.time()
     scripts = [wrap(b) for b in bodies]
-    mo = ctx.run_model(exe, ["run %d %s" % (FUEL, " ".join(tokens(s))) for s in scripts], timeout=600)
+    mo = ctx.run_model(exe, ["rundk %d %s" % (FUEL, " ".join(tokens(s))) for s in scripts], timeout=600)
     # the machine over the REGENERATED travel_to_point must agree with the machine over the SPEC script
     # (MachineProofs proves it; this run shows it on the extracted code and localises a broken translation)
     try:
@@ -950,6 +1255,7 @@ def run_scripts(ctx, exe, d, bodies, label):
             _broken_once(ctx, "machine-impl-vs-spec", "machine over the regenerated travel_to_point did not finish: %s" % str(e)[:200])
     if mi is not None:
         for s, a, b in zip(scripts, mo, mi):
+            a = " ".join(":".join(t.split(":")[:2]) for t in a.split())         # drop the dk annotation of rundk
             if a != b:
                 _broken_once(ctx, "machine-impl-vs-spec", "machine over the regenerated travel_to_point differs from the machine over wind_script on %s: %s vs %s" % (" ".join(tokens(s)), b, a))
                 break
@@ -960,7 +1266,7 @@ def run_scripts(ctx, exe, d, bodies, label):
         if m.startswith("ERR"):
             ctx.broken("model-driver", "model driver rejected a script: %s" % m)
             continue
-        stc, evs = parse_model(m)
+        stc, evs = model_events(s, m)
         if stc == 1:
             keep.append((b, s, evs))
         elif stc == 0:
@@ -973,66 +1279,98 @@ def run_scripts(ctx, exe, d, bodies, label):
     # every such case costs one timeout — stop the stream after a few (the violation is established)
     io, hard = [], 0
     if True:
-        io, hard = run_chibi(d, [program(s) for (_, s, _) in keep], stop=getattr(ctx, "_c06_stop", False))
+        io, hard = run_chibi(d, [program(s) for (_, s, _) in keep], prelude_extra=IMPORTS_FULL, stop=getattr(ctx, "_c06_stop", False))
     if len(io) < len(keep):
         ctx.note("%s: stopped after %d of %d scripts (%d crashes/timeouts so far)" % (label, len(io), len(keep), hard))
         keep = keep[:len(io)]
-    bad = []
+    bad, dkbad = [], []
     for (b, s, evs), i in zip(keep, io):
         hs = heads(b)
         nontriv = bool(hs & {"throw", "raise", "raisec"}) and bool(hs & {"wind", "windp", "param", "handler", "guard"})
         ctx.count(1, key=tuple(tokens(s)), nontrivial=nontriv)
         ctx.cov["traces_validated_against_impl"] += 1
-        if i is None or parse_impl(i) != evs:
-            bad.append((size(b), b, s, evs, i))
+        got = parse_impl(i) if i is not None else None
+        if got is None or canon_points(got) != evs:
+            if got is not None and kv(got) == kv(evs):
+                dkbad.append((size(b), b, s, evs, i))
+            else:
+                bad.append((size(b), b, s, evs, i))
     bad.sort(key=lambda x: x[0])
+    dkbad.sort(key=lambda x: x[0])
+    fmt = lambda evs: " ".join("%d:%d@%d/%d" % e if e[3] >= 0 else "%d:%d" % e[:2] for e in evs)
     for sz, b, s, evs, i in bad[:25]:
         cls = classify(evs, i)
         ctx.violation("control-trace:" + cls, input=" ".join(tokens(s)), scheme=standalone(s),
-                      expected=" ".join("%d:%d" % e for e in evs), observed=i, stream=label,
+                      expected=fmt(evs), observed=i, stream=label, event_format="kind:value@depth/point of (%dk) right after the event",
                       replay="printf '%%s' %s | LD_LIBRARY_PATH=%s CHIBI_MODULE_PATH=%s/lib CHIBI_IGNORE_SYSTEM_PATH=1 %s/chibi-scheme /dev/stdin" % (
                           shlex.quote(standalone(s)), d, d, d))
+    if dkbad:
+        # same events, but the wind point register (%dk) read after an event is not the machine's dk (theorem
+        # dk_is_continuation_extent: the innermost dynamic-wind frame of the current continuation).  Not by itself an
+        # observable R7RS violation: the sibling / ping-pong streams look for the script that makes it one.
+        sz, b, s, evs, i = dkbad[0]
+        _broken_once(ctx, "dk-register", "(%%dk) read after an event differs from the machine's dk in %d scripts of stream %s, first: %s | machine %s | "
+                     "chibi %s | replay: printf '%%s' %s | LD_LIBRARY_PATH=%s CHIBI_MODULE_PATH=%s/lib CHIBI_IGNORE_SYSTEM_PATH=1 %s/chibi-scheme /dev/stdin" % (
+                         len(dkbad), label, " ".join(tokens(s)), fmt(evs), i, shlex.quote(standalone(s)), d, d, d))
     if keep:
         b, s, evs = keep[len(keep) // 2]
         ctx.sample(dict(kind="script:" + label, script=" ".join(tokens(s)), scheme=program(s),
-                        model=" ".join("%d:%d" % e for e in evs), impl=io[len(keep) // 2]))
+                        model=fmt(evs), impl=io[len(keep) // 2]))
     if len(bad) >= 25 or hard >= 3:
         ctx._c06_stop = True
-    ctx.note("%s: %d scripts, %d compared with chibi, %d skipped (machine out of fuel), %d skipped (uncaught at top), %d differ; %.1fs (model %.1fs)" % (
-        label, len(bodies), len(keep), skipped["fuel"], skipped["uncaught"], len(bad), time.time() - t_start, t_model))
+    ctx.note("%s: %d scripts, %d compared with chibi, %d skipped (machine out of fuel), %d skipped (uncaught at top), %d differ (+%d in the dk register only); %.1fs (model %.1fs)" % (
+        label, len(bodies), len(keep), skipped["fuel"], skipped["uncaught"], len(bad), len(dkbad), time.time() - t_start, t_model))
     return len(bad)
+
+
+def _chibi_chunk(d, exprs, lo, hi, prelude_extra, timeout):
+    """one process for the cases lo..hi-1; returns ({case: output line}, rc, stderr)"""
+    import subprocess, tempfile
+    body = [scm.PRELUDE, prelude_extra]
+    for i in range(lo, hi):
+        body.append("(verif-case %d %s) (flush-output-port)" % (i, exprs[i]))
+    body.append('(write-string "DONE")(newline)')
+    with tempfile.NamedTemporaryFile("w", suffix=".scm", dir=B.SCRATCH, delete=False) as fh:
+        fh.write("\n".join(body))
+        path = fh.name
+    try:
+        try:
+            r = B.run_chibi(d, [path], timeout=timeout)
+            out, rc, err = r.stdout, r.returncode, r.stderr
+        except subprocess.TimeoutExpired as e:
+            out = e.stdout.decode() if isinstance(e.stdout, bytes) else (e.stdout or "")
+            rc, err = "TIMEOUT", ""
+    finally:
+        os.unlink(path)
+    got = {}
+    for line in out.split("\n"):
+        sp = line.find(" ")
+        if sp > 0 and line[:sp].isdigit():
+            got[int(line[:sp])] = line[sp + 1:]
+    return got, rc, err
 
 
 def run_chibi(d, exprs, prelude_extra="", timeout=30, chunk=250, max_hard=3, stop=False, _single=False):
     """like scm.run_cases, but flushes after every case (so a killed process is blamed on the right case),
     uses a short timeout and gives up after max_hard crashes/timeouts.  Returns (results, hard);
-    results may be shorter than exprs."""
-    import subprocess, tempfile
+    results may be shorter than exprs.  The chunks are first run 4 at a time; from the first chunk that does not
+    complete on, the sequential blame-the-right-case logic takes over."""
+    import concurrent.futures
     res, hard, lo = [], 0, 0
     os.makedirs(B.SCRATCH, exist_ok=True)
+    if not stop and not _single and len(exprs) > chunk:
+        bounds = [(a, min(len(exprs), a + chunk)) for a in range(0, len(exprs), chunk)]
+        with concurrent.futures.ThreadPoolExecutor(max_workers=4) as ex:
+            outs = list(ex.map(lambda ab: _chibi_chunk(d, exprs, ab[0], ab[1], prelude_extra, timeout * 2), bounds))
+        for (a, b), (got, rc, err) in zip(bounds, outs):
+            if all(i in got for i in range(a, b)):
+                res += [got[i] for i in range(a, b)]
+                lo = b
+            else:
+                break
     while lo < len(exprs) and hard < max_hard and not stop:
         hi = min(len(exprs), lo + chunk)
-        body = [scm.PRELUDE, prelude_extra]
-        for i in range(lo, hi):
-            body.append("(verif-case %d %s) (flush-output-port)" % (i, exprs[i]))
-        body.append('(write-string "DONE")(newline)')
-        with tempfile.NamedTemporaryFile("w", suffix=".scm", dir=B.SCRATCH, delete=False) as fh:
-            fh.write("\n".join(body))
-            path = fh.name
-        try:
-            try:
-                r = B.run_chibi(d, [path], timeout=timeout)
-                out, rc, err = r.stdout, r.returncode, r.stderr
-            except subprocess.TimeoutExpired as e:
-                out = e.stdout.decode() if isinstance(e.stdout, bytes) else (e.stdout or "")
-                rc, err = "TIMEOUT", ""
-        finally:
-            os.unlink(path)
-        got = {}
-        for line in out.split("\n"):
-            sp = line.find(" ")
-            if sp > 0 and line[:sp].isdigit():
-                got[int(line[:sp])] = line[sp + 1:]
+        got, rc, err = _chibi_chunk(d, exprs, lo, hi, prelude_extra, timeout)
         n = lo
         while n < hi and n in got:
             res.append(got[n])
@@ -1121,9 +1459,10 @@ def run(ctx):
                        "(every:1 = a collection before every allocation of the script's run, every:2/3, seeded; heap audit on a subset), "
                        "started at the first allocation of the run found through marker allocations in the allocation log; output must equal "
                        "the machine's trace, ASan silent; a failing schedule is bisected to a single at:k.")
-    from gen import c06_travel, c06_shapes
+    from gen import c06_travel, c06_shapes, c06_exports
     c06_travel.regen(ctx)
     c06_shapes.check(ctx)          # the hand-mirrored Scheme definitions still have the mirrored text
+    c06_exports.check(ctx)         # every exported spelling / alias / selecting .sld of a modelled construct is the pinned one
     ctx.coq_obligations("Properties_C06")
     t0 = time.time()
     d = ctx.build("default")
@@ -1135,6 +1474,9 @@ def run(ctx):
     travel_cases(ctx, exe, d)
     stack_cases(ctx, exe, d)
     callback_escapes(ctx, d, exe)
+    alias_identity(ctx, d)
+    resumecc_growth(ctx)
+    values_cases(ctx, exe, d)
     cb = corpus_bodies()
     if cb:
         run_scripts(ctx, exe, d, cb, "corpus")
@@ -1156,6 +1498,7 @@ def run(ctx):
     for n in range(1, (6 if not ctx.thorough else 7)):
         ex3 += [relabel(s) for s in enum_grammar(n, memo=m2, **DYN_CORE)]
     run_scripts(ctx, exe, d, ex3, "exhaustive-dyn-core")
+    run_scripts(ctx, exe, d, sibling_family(rng, ctx.thorough), "sibling-jumps")
     tp = []
     for _ in range(60 if not ctx.thorough else 1500):
         tp += templates(rng)
